@@ -218,3 +218,39 @@ theorem c09_stream_run (abort : Bool) (msgs : List (List Byte × List Byte)) (po
   simp
 
 end C09
+
+/-! ### the first message whose own decode fails decides the stream -/
+
+namespace C09
+
+/-- **a stream is decoded message by message up to and including the first message that fails (command)**: after any exchanges
+that decode on their own, a command whose own decode ends in an error other than running out of input makes the stream decode end in
+exactly that error (paths as they are, region ids moved by the offset), with the chain's events followed by that command's own
+events — whatever bytes follow the command -/
+theorem c09_first_failing_command (abort : Bool) (msgs : List (List Byte × List Byte)) (c y : List Byte) (pos' : Nat)
+    (out' : List (Nat × Event)) (h : runMsgs abort Generated.msgTables rootPath msgs 0 [] = some (pos', out'))
+    (e : Err) (t : St) (hc : decodeCommand abort Generated.msgTables rootPath (initSt c) = .error (e, t)) (hnd : e ≠ .depleted)
+    (hne : c ≠ []) :
+    ∃ t', runWalker abort Generated.msgTables .stream (flat msgs ++ (c ++ y)) = .error (shErr pos' e, t') ∧
+      t'.out = out' ++ shOut pos' t.out := by
+  simpa [runWalker] using stream_fails_at_command abort Generated.msgTables rootPath msgs c y pos' out' h e t hc hnd hne
+
+/-- … and for a response (decoded under its command's code and encrypt flag) -/
+theorem c09_first_failing_response (abort : Bool) (msgs : List (List Byte × List Byte)) (c r y : List Byte) (pos' : Nat)
+    (out' : List (Nat × Event)) (h : runMsgs abort Generated.msgTables rootPath msgs 0 [] = some (pos', out'))
+    (cv : Val) (tc : St) (hc : decodeCommand abort Generated.msgTables rootPath (initSt c) = .ok (cv, tc)) (htc : tc.inp = [])
+    (hne : c ≠ []) (enc : Bool) (henc : cmdEncrypt Generated.msgTables cv = .ok enc) (e : Err) (t : St)
+    (hr : decodeResponse abort Generated.msgTables ((objField cv "commandCode").bind vInt) enc rootPath (initSt r) = .error (e, t))
+    (hnd : e ≠ .depleted) (hner : r ≠ []) :
+    ∃ t', runWalker abort Generated.msgTables .stream (flat msgs ++ (c ++ (r ++ y))) = .error (shErr (tc.pos + pos') e, t') ∧
+      t'.out = out' ++ shOut pos' tc.out ++ shOut (tc.pos + pos') t.out := by
+  simpa [runWalker] using
+    stream_fails_at_response abort Generated.msgTables rootPath msgs c r y pos' out' h cv tc hc htc hne enc henc e t hr hnd hner
+
+/-- not vacuous (kernel-evaluated): in strict mode the Startup command with `startupType = 0x42` fails on its own with a value error -/
+example : (match decodeCommand true Generated.msgTables rootPath (initSt [0x80, 0x01, 0, 0, 0, 0x0c, 0, 0, 0x01, 0x44, 0, 0x42]) with
+    | .error (.value _ _ _, _) => true
+    | _ => false) = true := by
+  decide +kernel
+
+end C09
